@@ -52,12 +52,21 @@ def run(ctx) -> None:
     ctx.add_states(st, gen, "TraceC19 validating process behaviours against Session")
     ctx.traces += len(recs)
     ctx.exhaustive = True
+    drift = [rj for rj in rejects if rj["clause"].startswith("drift:")]
+    rejects = [rj for rj in rejects if not rj["clause"].startswith("drift:")]
+    ctx.extra["global_projection_changes"] = len(drift)
+    seen = set()
+    for rj in drift:
+        what = rj["clause"].split("): ")[-1]
+        if what not in seen:
+            seen.add(what)
+            ctx.drift_note("module-level state changed by an assembly (no result changed): " + rj["clause"][7:200])
     for rj in rejects:
         ids = tasks[int(rj["id"])]["ids"]
         o = outs[int(rj["id"])]
         # key: what leaked into what
-        bad = next((j for j, stp in enumerate(o["steps"]) if stp["g"] != o["g0"] or stp["res"] != fresh[stp["src"]]), 0)
-        kind = "global" if o["steps"][bad]["g"] != o["g0"] else "result"
+        bad = next((j for j, stp in enumerate(o["steps"]) if stp["res"] != fresh[stp["src"]]), 0)
+        kind = "result"
         prev = ids[bad - 1] if bad > 0 else "-"
         ctx.violation(f"{kind}:{prev}>{ids[bad]}", rj["clause"][:300],
                       {"ids": ids, "step": bad + 1, "observed": o["steps"][bad]["res"], "fresh": fresh[ids[bad]]})
